@@ -111,7 +111,8 @@ theorem C01_partial_aux (p : Prog) (c : CProg) (N fuel : Nat) (t : List Ev)
     rw [hokTop] at hin
     simp only at hin
     have hpreall : ∀ x ∈ pre.assigned, x ∈ all := hall1
-    unfold tr at htr
+    replace htr := (tr_ok htr).2
+    unfold trCore at htr
     obtain ⟨acc, hacc, htr⟩ := bind_ok htr
     simp only at htr
     unfold Py.run at hpy
